@@ -15,6 +15,7 @@ package l4throttle
 import (
 	"bytes"
 	"context"
+	"errors"
 	"fmt"
 	"io"
 	"math"
@@ -199,6 +200,8 @@ type v17Inner struct {
 	chunk   int   // at most this many bytes per Read (0: no limit)
 	asked   []int // len(p) of every Read
 	gave    []int
+	errs    []int // error code returned by every Read (0 nil, 1 io.EOF, 2 other)
+	errWith int   // 0: io.EOF alone after the data; 1: io.EOF together with the last bytes; 2: a reset-like error together with the last bytes; 3: that error alone after the data
 	samples []v17Sample
 	first   time.Time
 	seed    byte
@@ -240,10 +243,27 @@ func (c *v17Inner) Read(p []byte) (int, error) {
 		c.shared.samples = append(c.shared.samples, v17Sample{now, c.shared.cum})
 		c.shared.mu.Unlock()
 	}
-	if n == 0 && len(p) > 0 {
-		return 0, io.EOF
+	var err error
+	if len(p) > 0 && c.off == c.size && (n == 0 || c.errWith == 1 || c.errWith == 2) {
+		err = io.EOF
+		if c.errWith >= 2 {
+			err = errV17Reset
+		}
 	}
-	return n, nil
+	c.errs = append(c.errs, v17ErrCode(err))
+	return n, err
+}
+
+var errV17Reset = errors.New("read: connection reset by peer")
+
+func v17ErrCode(err error) int {
+	switch {
+	case err == nil:
+		return 0
+	case errors.Is(err, io.EOF):
+		return 1
+	}
+	return 2
 }
 func (c *v17Inner) Write(b []byte) (int, error)      { return len(b), nil }
 func (c *v17Inner) Close() error                     { return nil }
@@ -337,11 +357,14 @@ func v17ReadCases(out *vOut, r *vRng, n int) {
 			continue
 		}
 		avail := int64(r.Intn(300))
+		if r.Bool() { // short streams: the reads reach the end, where the inner connection reports its error
+			avail = int64(r.Intn(40))
+		}
 		chunk := 0
 		if r.Intn(3) == 0 {
 			chunk = 1 + r.Intn(30)
 		}
-		inner := &v17Inner{size: avail, chunk: chunk, seed: byte(i)}
+		inner := &v17Inner{size: avail, chunk: chunk, seed: byte(i), errWith: r.Intn(4)}
 		var lens []int64
 		for k := 1 + r.Intn(12); k > 0; k-- {
 			switch r.Intn(5) {
@@ -355,15 +378,18 @@ func v17ReadCases(out *vOut, r *vRng, n int) {
 				lens = append(lens, int64(1+r.Intn(80)))
 			}
 		}
+		input := map[string]any{"cfg": c.coq(), "inner_stream_bytes": avail, "inner_max_per_read": chunk, "read_lengths": lens,
+			"inner_final_error": []string{"io.EOF after the data", "io.EOF together with the last bytes", "reset together with the last bytes", "reset after the data"}[inner.errWith]}
 		var got []byte
-		var ns []int
+		var ns, rerrs []int
 		consT, consL := int64(-1), int64(-1)
 		cx := layer4.WrapConnection(inner, nil, zap.NewNop())
 		herr := h.Handle(cx, layer4.HandlerFunc(func(cx *layer4.Connection) error {
 			for _, l := range lens {
 				p := make([]byte, l)
-				m, _ := cx.Read(p)
+				m, rerr := cx.Read(p)
 				ns = append(ns, m)
+				rerrs = append(rerrs, v17ErrCode(rerr))
 				got = append(got, p[:m]...)
 			}
 			if ledger {
@@ -383,7 +409,7 @@ func v17ReadCases(out *vOut, r *vRng, n int) {
 		}))
 		cancel()
 		if herr != nil {
-			out.Fail("C17:handle:error", fmt.Sprint(herr), c.coq())
+			out.Fail("C17:handle:error", fmt.Sprint(herr), input)
 			continue
 		}
 		// oracle: stream intact, inner read sizes within batch
@@ -392,10 +418,27 @@ func v17ReadCases(out *vOut, r *vRng, n int) {
 			want[k] = v17Byte(inner.seed, int64(k))
 		}
 		if !bytes.Equal(got, want) || int64(len(got)) != inner.off {
-			out.Fail("C17:stream:bytes-differ", fmt.Sprintf("delivered %d bytes, inner handed over %d; first difference at %d", len(got), inner.off, v17Diff(got, want)), c.coq())
+			out.Fail("C17:stream:bytes-differ", fmt.Sprintf("delivered %d bytes, inner handed over %d; first difference at %d", len(got), inner.off, v17Diff(got, want)), input)
 		}
-		var obs []string
+		var obs, ret []string
+		var ierrs []int64
 		clipped := false
+		withData := false
+		for k := range inner.errs {
+			ierrs = append(ierrs, int64(inner.errs[k]))
+			if inner.errs[k] != 0 && inner.gave[k] > 0 {
+				withData = true
+			}
+			if k < len(rerrs) {
+				ret = append(ret, fmt.Sprintf("(%d,%d)", ns[k], rerrs[k]))
+				if inner.errs[k] != rerrs[k] {
+					out.Fail("C17:read:error-not-passed-on", fmt.Sprintf("Read %d: inner Read returned (%d, error code %d), Read returned (%d, error code %d)", k, inner.gave[k], inner.errs[k], ns[k], rerrs[k]), input)
+				}
+				if ns[k] != inner.gave[k] {
+					out.Fail("C17:stream:bytes-differ", fmt.Sprintf("Read %d: inner Read returned %d bytes (error code %d) but Read returned %d", k, inner.gave[k], inner.errs[k], ns[k]), input)
+				}
+			}
+		}
 		for k, a := range inner.asked {
 			b := lens[k]
 			if h.totalLimiter != nil && int64(h.TotalReadBurstSize) < b {
@@ -408,12 +451,12 @@ func v17ReadCases(out *vOut, r *vRng, n int) {
 				clipped = true
 			}
 			if int64(a) > b {
-				out.Fail("C17:read:batch-exceeded", fmt.Sprintf("Read(p) with len(p)=%d: inner Read was given %d bytes of room, batch is %d", lens[k], a, b), c.coq())
+				out.Fail("C17:read:batch-exceeded", fmt.Sprintf("Read(p) with len(p)=%d: inner Read was given %d bytes of room, batch is %d", lens[k], a, b), input)
 			}
 			obs = append(obs, fmt.Sprintf("(%d,%d)", a, inner.gave[k]))
 		}
 		if len(inner.asked) != len(lens) {
-			out.Fail("C17:read:inner-read-count", fmt.Sprintf("%d Reads, %d inner Reads", len(lens), len(inner.asked)), c.coq())
+			out.Fail("C17:read:inner-read-count", fmt.Sprintf("%d Reads, %d inner Reads", len(lens), len(inner.asked)), input)
 			continue
 		}
 		cls := "read-sizes"
@@ -425,11 +468,14 @@ func v17ReadCases(out *vOut, r *vRng, n int) {
 				sum += int64(a)
 			}
 			if (h.totalLimiter != nil && consT != sum) || (h.ReadBurstSize > 0 && consL != sum) {
-				out.Fail("C17:read:tokens-not-charged", fmt.Sprintf("batches sum to %d; total limiter charged %d, per-connection limiter charged %d", sum, consT, consL), c.coq())
+				out.Fail("C17:read:tokens-not-charged", fmt.Sprintf("batches sum to %d; total limiter charged %d, per-connection limiter charged %d", sum, consT, consL), input)
 			}
 		}
-		out.Case(fmt.Sprintf("CRead %s %s %s %s [%s] %s %s", c.coq(), cZ(avail), cZ(int64(chunk2(chunk))), cZList(lens), strings.Join(obs, ";"), cZ(consT), cZ(consL)),
-			cls, clipped || ledger, map[string]any{"cfg": c.coq(), "lens": lens, "obs": obs, "consumed_total": consT, "consumed_local": consL})
+		if withData {
+			cls += "+error-with-data"
+		}
+		out.Case(fmt.Sprintf("CRead %s %s %s %s %s [%s] [%s] %s %s", c.coq(), cZ(avail), cZ(int64(chunk2(chunk))), cZList(lens), cZList(ierrs), strings.Join(obs, ";"), strings.Join(ret, ";"), cZ(consT), cZ(consL)),
+			cls, clipped || ledger || withData, map[string]any{"cfg": c.coq(), "lens": lens, "inner_errs": ierrs, "obs": obs, "ret": ret, "final_error_mode": inner.errWith, "consumed_total": consT, "consumed_local": consL})
 	}
 }
 
